@@ -1,4 +1,5 @@
 import Amqp.Lemmas.Get
+import Amqp.Lemmas.RpcMicro
 import Amqp.Gen.Skel
 /-!
 # C15 — basic.get returns the whole message or None and leaves no residue
@@ -187,6 +188,55 @@ theorem skel_Basic__get_message : Gen.Skel.Basic__get_message =
 theorem skel_Basic__get_content_body : Gen.Skel.Basic__get_content_body =
   ["while", "do", "call:_channel.rpc.get_request", "if", "then", "break", "endif", "endwhile",
     "return"] := by decide
+
+/-! ## Late frames while the bookkeeping is being built or discarded
+
+`Model/RpcMicro.lean`: the caller performs `register_request` and `remove` one dict operation at a
+time and the reader may run `on_frame` between any two of them — which is what happens when the
+reply to a get that has timed out arrives after all.  Any number of calls, any frames, any
+interleaving. -/
+
+/-- the reader thread never fails (`KeyError` in `Rpc.on_frame` would kill it and with it every later
+    call on the connection): no frame ever finds a name mapped to an identifier without a reply slot -/
+theorem reader_never_fails_on_late_frames (evs : List RpcMicro.Ev) (s : RpcMicro.S)
+    (h : RpcMicro.run RpcMicro.init evs = some s) : s.keyErrors = 0 :=
+  (RpcMicro.run_inv evs _ _ RpcMicro.J_init h).2
+
+/-- whenever no call is in progress both tables are empty — whatever arrived, whenever -/
+theorem no_residue_under_late_frames (evs : List RpcMicro.Ev) (s : RpcMicro.S)
+    (h : RpcMicro.run RpcMicro.init evs = some s) (hi : s.phase = .idle) :
+    s.t.request = [] ∧ s.t.response = [] := by
+  have := (RpcMicro.run_inv evs _ _ RpcMicro.J_init h).1
+  unfold RpcMicro.J at this; rw [hi] at this; exact this
+
+/-- … and a frame that arrives then is not swallowed: it falls through to the channel -/
+theorem late_frame_falls_through_when_idle (evs : List RpcMicro.Ev) (s : RpcMicro.S)
+    (h : RpcMicro.run RpcMicro.init evs = some s) (hi : s.phase = .idle) (f : Frm) :
+    RpcMicro.onFrameK s.t f = (false, false, s.t) := by
+  have := (no_residue_under_late_frames evs s h hi).1
+  unfold RpcMicro.onFrameK; rw [this]; rfl
+
+/-- the two orders the proof rests on are the ones in the source (regenerated) -/
+theorem gen_table_orders : Gen.RpcWait.registerResponseFirst = true ∧ Gen.RpcWait.removeRequestFirst = true := by
+  decide
+
+def lateOk : Frm := { name := "Basic.GetOk", tag := 0, reply := true }
+/-- were `remove` to drop the reply slot first, a late `GetOk` between its two steps fails in the reader -/
+theorem remove_order_matters :
+    (RpcMicro.runP true false RpcMicro.init
+      [.begin ["Basic.GetOk"], .regStep, .regStep, .beginRemove, .remStep, .frame lateOk]).map (·.keyErrors) = some 1 := by
+  decide
+/-- were `register_request` to map the names first, an early reply between its steps fails the same way -/
+theorem register_order_matters :
+    (RpcMicro.runP false true RpcMicro.init
+      [.begin ["Basic.GetOk"], .regStep, .frame lateOk]).map (·.keyErrors) = some 1 := by
+  decide
+/-- non-vacuity: a whole call with a late frame at every point of the clean-up; the code's orders -/
+example : (RpcMicro.run RpcMicro.init
+      [.begin ["Basic.GetOk", "Basic.GetEmpty"], .regStep, .frame lateOk, .regStep, .regStep, .frame lateOk, .pop,
+       .beginRemove, .frame lateOk, .remStep, .frame lateOk, .remStep, .frame lateOk, .remStep, .frame lateOk]).map
+      (fun s => (s.keyErrors, s.consumed.length, s.fell.length, s.t.request.length, s.t.response.length, s.phase)) =
+    some (0, 2, 4, 0, 0, .idle) := by decide
 
 /-! ## Non-vacuity -/
 def gOk : Frm := { name := "Basic.GetOk", tag := 0, reply := true, data := [1, 2] }
